@@ -24,7 +24,7 @@ PROP = "C15"
 SHARDS = {"quick": 8, "thorough": 16}
 TIME_CAP = {"quick": 600, "thorough": 2700}   # wall-clock guard only (loaded machines); budgets are counts
 CPU_CAP = {"quick": 150, "thorough": 900}      # CPU seconds per worker (nominal: ~8 s quick, ~80 s thorough)
-REQUIRED = ["initvar_not_a_field_checks", "histories", "steps_checked", "fields_set_checks", "is_set_checks", "serialize_default_checks", "serialize_all_checks",
+REQUIRED = ["non_field_name_checks", "initvar_not_a_field_checks", "histories", "steps_checked", "fields_set_checks", "is_set_checks", "serialize_default_checks", "serialize_all_checks",
             "op:ctor", "op:deser", "op:assign", "op:set", "op:set_overwrite", "op:unset", "op:replace",
             "override_constructors_histories", "old_instance_checks", "nested_serialize_checks", "nested_deserialize_checks", "global_setting_checks",
             "undecorated_class_checks", "nonempty_unset_observed", "random_histories"]
@@ -49,8 +49,9 @@ ASSUMPTIONS = [
 
 
 class F:
-    def __init__(self, name, kind="n", req=False, das=False, alias=None, factory=False, default=0, md=None):
+    def __init__(self, name, kind="n", req=False, das=False, alias=None, factory=False, default=0, md=None, tp=None):
         self.name, self.kind, self.req, self.das, self.alias, self.factory, self.default, self.md = name, kind, req, das, alias, factory, default, md
+        self.tp = tp  # annotation override (the type variable of a generic class)
 
     def decl(self):
         if self.kind == "iv":
@@ -70,7 +71,7 @@ class F:
             md.append(self.md)
         if md:
             args.append("metadata=" + " | ".join(md))
-        tp = "List[int]" if self.factory else "int"
+        tp = self.tp or ("List[int]" if self.factory else "int")
         if not args:
             return f"    {self.name}: {tp}"
         if args == [f"default={self.default}"]:
@@ -79,8 +80,9 @@ class F:
 
 
 class C:
-    def __init__(self, name, fields=(), base=None, deco=True, dc=True, frozen=False, post=(), post_params=()):
+    def __init__(self, name, fields=(), base=None, deco=True, dc=True, frozen=False, post=(), post_params=(), generic=False):
         self.name, self.fields, self.base, self.deco, self.dc, self.frozen, self.post, self.post_params = name, list(fields), base, deco, dc, frozen, list(post), list(post_params)
+        self.generic = generic  # class K(Generic[TG]); used as K[int]
 
     def source(self, suffix):
         lines = []
@@ -88,7 +90,8 @@ class C:
             lines.append("@with_fields_set")
         if self.dc:
             lines.append("@dataclass(frozen=True)" if self.frozen else "@dataclass")
-        lines.append(f"class {self.name}{suffix}" + (f"({self.base}{suffix})" if self.base else "") + ":")
+        bases = ([f"{self.base}{suffix}"] if self.base else []) + (["Generic[TG]"] if self.generic else [])
+        lines.append(f"class {self.name}{suffix}" + (f"({', '.join(bases)})" if bases else "") + ":")
         body = [f.decl() for f in self.fields]
         if self.post:
             body.append(f"    def __post_init__(self{''.join(', ' + p for p in self.post_params)}):")
@@ -128,11 +131,15 @@ def families():
     fam["conditional_field_serializer"] = [C("K", [F("a", req=True, md="skip(serialization_if=never)"), F("b", md="skip(serialization_if=never)"), F("c", das=True, md="skip(serialization_if=never)"), F("d")])]
     fam["frozen"] = [C("K", [F("a", req=True), F("b"), F("c", das=True), F("d", kind="nf", default=5)], frozen=True)]
     fam["all_optional"] = [C("K", [F("a"), F("b", default=1), F("c", default=2)])]
+    # generic class used through its parametrized alias K[int] (typing sets __orig_class__ on the instances it builds)
+    fam["generic"] = [C("K", [F("a", req=True, tp="TG"), F("b"), F("c", das=True), F("d", kind="nf", default=5)], generic=True)]
     fam["never_decorated"] = [C("K", [F("a", req=True), F("b"), F("c", kind="nf", default=5)], deco=False)]
     return fam
 
 
 PRELUDE = """from dataclasses import dataclass, field, InitVar
+from typing import Generic, TypeVar
+TG = TypeVar("TG")
 from typing import List, Optional
 from apischema import alias
 from apischema.fields import with_fields_set
@@ -184,6 +191,8 @@ class Family:
         exec(compile(self.source, fn, "exec"), mod.__dict__)
         self.module = mod
         self.T = getattr(mod, self.specs[-1].name + self.suffix)
+        if self.specs[-1].generic:
+            self.T = self.T[int]
         self.W = getattr(mod, "W" + self.suffix)
         return self
 
@@ -360,6 +369,10 @@ class Runner:
         env.count("fields_set_checks")
         # an InitVar is a constructor argument, not a field: its name is never "set" by construction / deserialization
         # (after apischema.dataclasses.replace or an explicit set_fields naming it, membership is unspecified)
+        others = sorted(set(fs) - set(fam.names) - set(fam.initvars))
+        env.count("non_field_name_checks")
+        if others:  # e.g. an attribute set by the machinery around the class (typing's __orig_class__)
+            self.violation("fields_set-contains-non-field", ops, step, {"names": others[:3]}, observed=sorted(fs))
         if fam.initvars:
             env.count("initvar_not_a_field_checks")
             named = any(op[0] == "replace" or (op[0] in ("set", "assign") and set(fam.initvars) & set(op[1] if isinstance(op[1], (tuple, list, set)) else (op[1],))) for op in ops[: step + 1])
